@@ -110,7 +110,7 @@ func runOneCanary(cn Canary, prop, repo, verif string) canaryResult {
 	fired := false
 	var others []string
 	for _, m := range violLine.FindAllStringSubmatch(s, -1) {
-		if m[2] == cn.Rule && strings.Contains(m[3], cn.Substr) {
+		if contains(strings.Split(cn.Rule, "|"), m[2]) && strings.Contains(m[3], cn.Substr) {
 			fired = true
 		} else {
 			others = append(others, m[2]+" "+m[3])
